@@ -28,13 +28,15 @@ def bindUnsized (cs : CState) (ns name : String) : Bool :=
     * `bind`: the bind allocates nothing for a pod with a pool annotation (`bindOK`: the pod owns an address for every
       request - what a Filter that saw the Pool object leaves behind, `filter_that_saw_pool_makes_bind_ok`), or the pod's
       pool is not a sized pool at that moment (`bindUnsized`);
-    * `syncPodIPs`: the pass re-creates no record of a pool (`syncOK`);
+    * `syncPodIPs`, `markTerminating` (UpdatePod runs `syncPodIP` for a Running pod): the pass re-creates no record of a
+      pool (`syncOK`, `termOK`);
     * `reload`: every pool of the new configuration has a node subnet, and no store object orphaned by an earlier
       reload belongs to a pool (`orphanFree`); `restart`: `orphanFree`. -/
 def allowed (cs : CState) : Move7 → Bool
   | .base (.reload pools _) => wfPoolsB pools && orphanFree cs.base
   | .base .restart => orphanFree cs.base
   | .base (.syncPodIPs _) => syncOK cs.base
+  | .base (.markTerminating ns name _) => termOK cs.base ns name
   | .base (.bind ns name _ _ ch _ _) => bindOK cs.base ns name ch || bindUnsized cs ns name
   | _ => true
 
@@ -91,6 +93,9 @@ theorem stepB_effect (F : Plugin.Facts) (cs : CState) (m : Move) (hc : Coherent 
     split
     · exact Quiet7.refl s
     · split <;> exact Quiet7.of_eq rfl rfl rfl rfl
+  | markTerminating ns name fault =>
+    have h : termOK s ns name = true := by rw [← hs]; exact ha
+    exact ofq _ (markTerminating_q F s ns name fault h)
   | scale kind ns app replicas => exact ofq _ (Quiet7.of_eq rfl rfl rfl rfl)
   | deleteApp kind ns app => exact ofq _ (Quiet7.of_eq rfl rfl rfl rfl)
   | setPool name size => apply ofq; dsimp only [step]; split <;> exact Quiet7.of_eq rfl rfl rfl rfl
